@@ -246,6 +246,29 @@ Example C08_nesting_rounding_nonvacuous :
   obind (binop_ieee OAdd f01 f02) (fun s => binop_ieee OAdd x s) = Yield (mkf 3152519739159347 (-50)).
 Proof. split; [|split; vm_compute; reflexivity]. cbn [tree_ok]. repeat split; vm_compute; reflexivity. Qed.
 
+(* ---- operand classes ---------------------------------------------------------------------------------------
+   The dunder theorems above quantify over ARBITRARY operand expressions ([e], [r] : any class of the model's syntax,
+   any arguments, any depth).  Stated once more without any reference to the classes: whatever the two operands are,
+   evaluating `l s r` is ONE constructor call whose arguments are the two operands THEMSELVES, in the written or the
+   swapped order, the left scalar wrapped in PConstant for the reflected % and ** — the pattern operand is never
+   inspected, called or rebuilt.  (What the implementation reaches through `self` while dispatching is therefore not
+   part of the model: the correspondence has to run the dunders on instances of every class, see docs/C08.md.) *)
+Theorem C08_dunder_any_operand_class : forall s l r,
+  exists c args, dunder s l r = ECall c args /\ (args = [l; r] \/ args = [r; l] \/ args = [pconst l; r]).
+Proof.
+  intros s l r. destruct s as [o|]; cbn [dunder].
+  - destruct (is_ep l); [do 2 eexists; split; [reflexivity | auto]|].
+    destruct o; do 2 eexists; (split; [reflexivity | auto]).
+  - do 2 eexists; split; [reflexivity | auto].
+Qed.
+Print Assumptions C08_dunder_any_operand_class.
+
+(* the same for unary minus and abs *)
+Theorem C08_unary_any_operand_class : forall x,
+  dunder_neg x = ECall (CBinOp OSub) [EV (VInt 0); x] /\ dunder_abs x = ECall CAbs [x].
+Proof. intro x. split; reflexivity. Qed.
+Print Assumptions C08_unary_any_operand_class.
+
 (* ---- the special IEEE values ------------------------------------------------------------------------------
    NaN, +inf and -inf as operand values (stream elements, scalars on either side, or arising inside an expression:
    inf - inf, 0.0 * inf, 1e308 * 10).  [val] has no constructor for them; Pat/IeeeSpecial.v gives the Python
